@@ -92,6 +92,10 @@ func TestProp(t *testing.T) {
 		c.Cfg.NoStmts = rapid.IntRange(0, 9).Draw(t, "nostmt") == 0
 		c.Cfg.NoNDice = rapid.IntRange(0, 9).Draw(t, "nondice") == 0
 		c.Cfg.NoBitwise = rapid.IntRange(0, 9).Draw(t, "nobit") == 0
+		// a parse budget only turns some accepted inputs into rejected ones; it must never change what accepted code looks like
+		if rapid.IntRange(0, 2).Draw(t, "withParseLimit") == 0 {
+			c.Cfg.ParseLimit = uint64(rapid.SampledFrom([]int{150, 300, 500, 800, 1200, 1600, 2000, 2600, 3500, 5000, 8000, 20000}).Draw(t, "parseLimit"))
+		}
 		o := gen.DefaultOpts()
 		o.Dice, o.CoC, o.WoD, o.Fate, o.DC = true, c.Cfg.CoC, c.Cfg.WoD, c.Cfg.Fate, c.Cfg.DC
 		o.MaxStmts, o.MaxDepth = 6, 4
@@ -165,5 +169,24 @@ func TestReplay(t *testing.T) {
 			f, _, _ := checkCase(c, s)
 			return f
 		},
+	})
+}
+
+// FuzzC08 (thorough tier): coverage-guided search over raw bytes; byte 0 selects the flags, the rest is the source.
+func FuzzC08(f *testing.F) {
+	for _, p := range fixedProgs {
+		f.Add([]byte("\x0f" + p))
+	}
+	_, s := rt.FuzzRun("C08", "verify")
+	f.Fuzz(func(t *testing.T, data []byte) {
+		if len(data) < 2 || len(data) > 500 {
+			return
+		}
+		b := data[0]
+		c := Case{Src: string(data[1:]), Kind: "fuzz", Cfg: vmx.Cfg{CoC: b&1 != 0, WoD: b&2 != 0, Fate: b&4 != 0, DC: b&8 != 0,
+			NoStmts: b&16 != 0, NoNDice: b&32 != 0, NoBitwise: b&64 != 0, OpLimit: 30000}}
+		if fl, _, _ := checkCase(c, s); fl != nil && s.FuzzReport(fl) {
+			t.Fatalf("C08 %s\nobserved: %s\ncase: %s", fl.Signature, fl.Observed, fl.Case)
+		}
 	})
 }
